@@ -16,7 +16,8 @@ with the default set or an own `.forall(set)`); optionally an affine adaptation 
 written (random x adaptive products: `ro_to_roc` must raise).
 
 For every model the request is exported from the model's OWN objects (`m.dec_vars`: sizes / events / masks / vtypes;
-`m.all_constr`: every constraint's `linear / const / raffine / affine / sense / ambset`; `m.obj`, `m.sign`,
+`m.all_constr`: every constraint's `linear / const / raffine / affine / sense / ambset` and, per row of an expectation
+piece, the stored pattern of its random coefficients; `m.obj`, `m.sign`,
 `m.obj_ambiguity`; every `Ambiguity`'s `sup_constr / pro_constr / exp_constr / exp_constr_indices`, formulated
 through `sup_model / pro_model / exp_model` in PRIMAL form) BEFORE `do_math()` is called, in two variants:
   (A) the objective as the constraint `dec_vars[0] >= obj * sign` the code builds,
@@ -27,9 +28,9 @@ undefined.`) the Lean op must answer the same exception.
 
 Also re-checked on every compiled case (reported by the Lean op, violations count as mismatches): the hypotheses
 `RuleWF` (rule columns exist after `rule_var()`) and the index / layout part of `AmbWF` (`wf_inputs`, `rows_removed =
-false`, shapes) of `C03Model.dro_model_sound`; `PiecesOK` (no random coefficient on an affinely adaptive decision in an
-expectation constraint) is counted in the histogram only: it fails exactly for the late-adapt cases in which
-`dro_to_roc` - unlike `ro_to_roc` - does not raise.
+false`, shapes) of `C03Model.dro_model_sound`, and `PiecesOK` (no random coefficient on an affinely adaptive decision
+in an expectation constraint), which the theorem derives from the absence of an exception: since the repair of
+`dro_to_roc` (it raises `Incorrect affine expressions.` like `ro_to_roc`) it must hold on every compiled case.
 
 Not generated (outside the model's scope): random variables declared after a constraint / a set; convex atoms of
 decisions (`DecCvxConstr` etc.), `PWConstr` (`maxof(...) <= c` without `E`), event index lists with repeats.
@@ -495,12 +496,18 @@ def piece_json(pc, num_var, nz):
         al = pad(dense(sp.csr_matrix(pc.affine.linear)[:, :num_var]), num_var)
         ac = np.asarray(pc.affine.const, dtype=float).reshape(-1)
         rst = sorted(int(d) for d in np.unique(raf.indices))
-        return {'kind': 'ro', 'rows': rows_of(RL, RC, al, ac), 'rst': rst}
+        full = sp.csr_matrix(pc.raffine.linear)
+        pat = [sorted(int(d) for d in np.unique(full[i * nz:(i + 1) * nz].indices) if d < num_var) for i in range(m_)]
+        # hypotheses `hrst` / `PiecesWF` of the theorems: the patterns cover the non-zero random coefficients
+        assert all(d in rst for d in np.nonzero(np.abs(RL).sum(axis=(0, 1)))[0])
+        assert all(d in pat[i] for i in range(m_) for d in np.nonzero(np.abs(RL[i]).sum(axis=0))[0])
+        return {'kind': 'ro', 'rows': rows_of(RL, RC, al, ac), 'rst': rst, 'pat': pat}
     assert isinstance(pc, DecLinConstr), type(pc).__name__
     al = pad(dense(pc.linear), num_var)
     m_ = al.shape[0]
     ac = -np.asarray(pc.const, dtype=float).reshape(-1)
-    return {'kind': 'lin', 'rows': rows_of(np.zeros((m_, nz, num_var)), np.zeros((m_, nz)), al, ac), 'rst': []}
+    return {'kind': 'lin', 'rows': rows_of(np.zeros((m_, nz, num_var)), np.zeros((m_, nz)), al, ac), 'rst': [],
+            'pat': [[] for _ in range(m_)]}
 
 
 def sense_of(c):
@@ -669,7 +676,10 @@ def main():
             if not all(lean.get('amb_wf', [False])):
                 ok = False; diff = {'hypothesis': 'AmbWF'}
             for v in lean.get('pieces_ok', []):
-                cnt('hyp:PiecesOK:' + ('holds' if v else 'fails (random x late-adaptive product in an E-constraint: dro_to_roc does not raise)'))
+                # follows from the absence of an exception (`C03Model.droItems_piecesOK`)
+                cnt('derived:PiecesOK:' + ('holds' if v else 'fails'))
+                if not v:
+                    ok = False; diff = {'derived': 'PiecesOK'}
             for b in lean.get('branches', []):
                 cnt('lean:' + b)
             cnt('program:exp-cones', 1 if lean.get('xmat') else 0)
